@@ -97,13 +97,22 @@ def build_lib(variant="plain"):
     lib = os.path.join(d, "libabt.a")
     with Lock("repo-" + variant):
         if os.path.exists(lib):
+            try:
+                os.utime(os.path.join(BUILD, "repo", h), None)
+            except OSError:
+                pass
             return lib
-        # drop stale hashes (disk is limited)
+        # drop stale hashes (disk is limited) but keep recent ones: other checks may be
+        # running against a scratch worktree (VERIF_REPO) at the same time
         base = os.path.join(BUILD, "repo")
         if os.path.isdir(base):
-            for old in os.listdir(base):
-                if old != h:
-                    shutil.rmtree(os.path.join(base, old), ignore_errors=True)
+            olds = [o for o in os.listdir(base) if o != h]
+            olds.sort(key=lambda o: os.path.getmtime(os.path.join(base, o)), reverse=True)
+            now = time.time()
+            for k, old in enumerate(olds):
+                po = os.path.join(base, old)
+                if k >= 6 or now - os.path.getmtime(po) > 6 * 3600:
+                    shutil.rmtree(po, ignore_errors=True)
         os.makedirs(d, exist_ok=True)
         cc, flags = VARIANTS[variant]
         jobs = []
